@@ -1,4 +1,4 @@
-import VncModel.Threads.Refs
+import VncModel.Threads.Wake
 import VncModel.Threads.Skeleton
 import VncModel.Gen.C13
 /-!
@@ -38,6 +38,24 @@ What is proved here (every theorem is about every reachable state, i.e. every sc
   thread: no increment without decrement on any path, no decrement without a reference
   (`no_bad_decrement`), and `indices_allocated`: every client index a thread works on has been
   allocated (so the record rfbNewClient creates next is referenced by nobody).
+
+* `no_uaf`, `no_double_free` — under EVERY schedule no thread dereferences a client record that is not
+  allocated (LOCK/UNLOCK/TSIGNAL on its mutexes and condition variables, reads / writes of its fields,
+  reference counting), and `free` is reached only for a record that is still allocated.  They follow
+  from the life-cycle invariant `Life` (Threads/Life.lean, LifeStep.lean): a linked record is allocated;
+  a client a thread holds a counted reference on — or that the iterator has found under the list mutex
+  and is about to reference, or whose refCountMutex it still holds after dropping its reference — is
+  linked; the input thread's program counter determines "allocated"/"linked"; the output thread runs
+  only between its creation and its join; a record under construction / failed-creation teardown
+  belongs to exactly one calling thread; the unlink happens with refCount = 0 under both mutexes.
+* `referenced_is_linked`, `unlinked_is_unreferenced`, `free_only_when_safe`,
+  `freed_record_has_no_threads` — readable consequences of `Life`.
+* `mutex_waits_resolve`, `owner_can_run_or_waits` — a thread that owns a mutex can step or waits for a
+  higher owned mutex, so every mutex wait leads to a thread that can run (Threads/Progress.lean).
+* `shutdown_wakeup_not_lost`, `output_join_cannot_hang` — the wake-up clientInput sends its output thread
+  before joining it cannot be lost (Threads/Wake.lean).
+* `gone_once` — clientGoneHook runs at most once per record, never before rfbClientConnectionGone
+  reaches it, exactly once by the time the record is freed (Threads/Gone.lean).
 
 `_partial`: see the end of the file for what is not proved yet.
 -/
@@ -114,18 +132,103 @@ theorem indices_allocated {s : State} (h : Reach s) :
   let b := bnd_reach h
   ⟨b.app, b.lis, b.alk, b.thr⟩
 
+/-- **no use-after-free**: in every reachable state the ghost flag "a freed (or never allocated) client
+record was dereferenced" is clear; the flag is raised by every LOCK / UNLOCK of a per-client mutex, every
+TSIGNAL, every read or write of a record field and every reference-count operation of the model that
+hits a record with `alive = false` -/
+theorem no_uaf {s : State} (h : Reach s) : s.uaf = false := (safe_reach h).1
+
+/-- **no double free**: `free(cl)` (last step of rfbClientConnectionGone) is only reached for a record
+that is still allocated -/
+theorem no_double_free {s : State} (h : Reach s) : s.dfree = false := (safe_reach h).2
+
+/-- the ghost flags are live: a dereference of a record that is not allocated raises `uaf` (so
+`no_uaf` is a statement about the model's dereferences, not about a constant) -/
+example (s : State) (c : Nat) (h : (s.cl c).alive = false) : (touch s c).uaf = true := by
+  simp [touch, h, raise]
+
+/-- a client some thread holds a counted reference on is in the client list and allocated -/
+theorem referenced_is_linked {s : State} (h : Reach s) (t : Tid) (c : Nat) (hc : c ∈ refsOf s t) :
+    (s.cl c).linked = true ∧ (s.cl c).alive = true :=
+  referenced_linked h t c hc
+
+/-- a record that is not (or no longer) in the client list has reference count 0 -/
+theorem unlinked_is_unreferenced {s : State} (h : Reach s) (c : Nat) (hc : (s.cl c).linked = false) :
+    (s.cl c).refCount = 0 :=
+  unlinked_unreferenced h c hc
+
+/-- the thread about to execute `free(cl)` finds the record allocated, out of the list, with
+reference count 0 and its output thread joined (or never started) -/
+theorem free_only_when_safe {s : State} (h : Reach s) (c : Nat)
+    (hc : (s.cl c).ipc = .g .unlockS ∨ s.apc = .gone .unlockS c ∨ s.lpc = .gone .unlockS c) :
+    (s.cl c).alive = true ∧ (s.cl c).linked = false ∧ (s.cl c).refCount = 0 ∧ opcRun (s.cl c).opc = false :=
+  free_is_safe h c hc
+
+/-- once a record is freed neither of its threads is running any more -/
+theorem freed_record_has_no_threads {s : State} (h : Reach s) (c : Nat) (hc : (s.cl c).alive = false) :
+    ipcAlive (s.cl c).ipc = false ∧ opcRun (s.cl c).opc = false :=
+  freed_has_no_threads h c hc
+
+/-- the life-cycle invariant itself -/
+theorem life_cycle {s : State} (h : Reach s) : Life s := life_reach h
+
+/-- **the client-gone hook runs at most once** per client record, under every schedule; it has not run
+while the record is being created or served or is still before the hook in rfbClientConnectionGone, and
+it has run exactly once when rfbClientConnectionGone is past it — in particular when the input thread
+has freed the record and ended -/
+theorem gone_once {s : State} (h : Reach s) (c : Nat) :
+    (s.cl c).goneCnt ≤ 1 ∧
+    (iClass (s.cl c).ipc = 1 → (s.cl c).goneCnt = 0) ∧
+    (iClass (s.cl c).ipc = 2 → (s.cl c).goneCnt = 1) ∧
+    (∀ t, cClass (getC s t) = some (c, 1) → (s.cl c).goneCnt = 0) ∧
+    (∀ t, cClass (getC s t) = some (c, 2) → (s.cl c).goneCnt = 1) :=
+  let g := goneInv_reach h
+  ⟨g.le c, g.ipre c, g.ipost c, fun t => g.cpre t c, fun t => g.cpost t c⟩
+
+/-- reading of the classes: an input thread that has ended has run the hook exactly once -/
+example {s : State} (h : Reach s) (c : Nat) (he : (s.cl c).ipc = .exited) : (s.cl c).goneCnt = 1 :=
+  (gone_once h c).2.2.1 (by rw [he]; rfl)
+
+/-- **mutex waits always resolve**: in every reachable state, if a thread requests a mutex that is
+owned, some thread can take a step (the owner, or a thread further up the chain of owners — the chain
+climbs in the lock order).  Hence no deadlock that involves mutexes only: no lock cycle, and no mutex
+that stays locked because its owner has ended, sleeps in a condition wait or waits in pthread_join. -/
+theorem mutex_waits_resolve {s : State} (h : Reach s) (k : Mx) (t t' : Tid)
+    (hk : k ∈ pendOf s t) (ho : own s k.1 k.2 = some t') : ∃ t'', ∃ x, x ∈ succ s t'' :=
+  mutex_wait_resolves h k t t' hk ho
+
+/-- whoever owns a mutex can take a step, or is waiting for a mutex that somebody owns -/
+theorem owner_can_run_or_waits {s : State} (h : Reach s) (t : Tid) (hh : heldOf s t ≠ []) :
+    (∃ x, x ∈ succ s t) ∨ (∃ k, k ∈ pendOf s t ∧ own s k.1 k.2 ≠ none) :=
+  holder_progress h t hh
+
+/-- **the shutdown wake-up is not lost**: from the moment clientInput has stored RFB_SHUTDOWN and signalled
+updateCond under updateMutex until it has joined its output thread, `state` stays RFB_SHUTDOWN and the
+output thread is neither asleep in WAIT(updateCond) nor between its check of `state` and that WAIT -/
+theorem shutdown_wakeup_not_lost {s : State} (h : Reach s) (c : Nat)
+    (hi : (s.cl c).ipc = .x2 ∨ (s.cl c).ipc = .x3) :
+    (s.cl c).st = .shutdown ∧ (s.cl c).opc ≠ .blocked ∧ (s.cl c).opc ≠ .inU ∧ (s.cl c).opc ≠ .notStarted := by
+  have w := wake_reach h
+  rcases hi with e | e
+  · exact ⟨w.st_sd c (by rw [e]; rfl), (w.awake c (by rw [e]; rfl)).1, (w.awake c (by rw [e]; rfl)).2,
+      w.started c (by rw [e]; rfl)⟩
+  · exact ⟨w.st_sd c (by rw [e]; rfl), (w.awake c (by rw [e]; rfl)).1, (w.awake c (by rw [e]; rfl)).2,
+      w.started c (by rw [e]; rfl)⟩
+
+/-- ... so the pthread_join of the output thread never hangs: the output thread has ended, or some
+thread of the system can take a step -/
+theorem output_join_cannot_hang {s : State} (h : Reach s) (c : Nat) (hi : (s.cl c).ipc = .x3) :
+    (s.cl c).opc = .exited ∨ ∃ t, ∃ x, x ∈ succ s t :=
+  (output_join_progresses h c hi).2.2.2
+
 /-!
 ## Not proved (full-strength statements)
 
-* `no_uaf`: `∀ s, Reach s → s.uaf = false ∧ s.dfree = false`, and every step that frees client `c`
-  (the `unlockS` stage of rfbClientConnectionGone) is taken with `(s.cl c).refCount = 0 ∧ ¬ (s.cl c).linked`.
-  Proved ingredients: `refCount_is_exact`, `owner_is_program_counter` (refCount of c only changes under
-  c's refCountMutex, the list only under rfbClientListMutex), `indices_allocated`.  Missing: the
-  life-cycle invariant (a referenced client is linked, a linked client is allocated, the record is freed
-  by exactly one thread after its output thread was joined).
-* `gone_once`: `∀ s, Reach s → ∀ c, (s.cl c).goneCnt ≤ 1`.
 * `no_deadlock`: `∀ s, Reach s → (∀ t, succ s t = []) → every thread has terminated`.  Proved:
-  `no_lock_cycle`, `waiters_hold_nothing`; missing: every condition wait is eventually signalled.
+  `no_lock_cycle`, `waiters_hold_nothing`, `mutex_waits_resolve` (everything that involves mutexes);
+  `shutdown_wakeup_not_lost` / `output_join_cannot_hang` (the join of the output thread);
+  missing: the waits on deleteCond (rfbClientConnectionGone waiting for references) and the joins in
+  rfbShutdownServer are eventually satisfied (searched for by the scheduler's hang detection only).
 * `shutdown_terminates`, `threads_reclaimed`.
 -/
 
